@@ -38,12 +38,12 @@ class Case:
     def __init__(self, ctx, arg):
         I, w = ctx.I, ctx.w
         self.I, self.w, self.arg = I, w, arg
-        nm = arg.get('num_max', 99)
-        self.x = w.fresh_int('X', 0, nm)
-        self.y = w.fresh_int('Y', 0, nm)
-        self.z = w.fresh_int('Z', 0, nm)
+        nm = arg.get('num_max', 9)
+        self.x = w.fresh_int('X', 1, nm) if arg.get('sym_xy') else 1
+        self.y = w.fresh_int('Y', 1, nm) if arg.get('sym_xy') else 2
+        self.z = w.fresh_int('Z', arg.get('z_min', 1), nm)
         self.has_dist = w.fresh_int('has_dist', 0, 1)
-        self.dist = w.fresh_int('dist', 0, arg.get('dist_max', 99))
+        self.dist = w.fresh_int('dist', 0, arg.get('dist_max', 9))
         self.has_dirty = w.fresh_int('has_dirty', 0, 1)
         self.dirty = w.fresh_bool('dirty')
         self.has_post = w.fresh_int('has_post', 0, 1) if arg.get('tag_post') else 0
@@ -54,9 +54,14 @@ class Case:
         self.bcs = c04.branch_chars(w, self.branch) if self.branch is not None else None
         if arg.get('state') == 'clean_at_tag':
             w.assume(z3.Or(self.has_dist == 0, self.dist == 0))
-            w.assume(z3.Or(self.has_dirty == 0, z3.Not(self.dirty)))
+            if not arg.get('no_dirty_flag'):
+                w.assume(z3.Or(self.has_dirty == 0, z3.Not(self.dirty)))
         elif arg.get('state') == 'moved':
-            w.assume(z3.Or(z3.And(self.has_dist == 1, self.dist > 0), z3.And(self.has_dirty == 1, self.dirty)))
+            ahead = z3.And(self.has_dist == 1, self.dist > 0)
+            if arg.get('no_dirty_flag'):
+                w.assume(ahead)                      # --no-dirty: only commits after the tag move the state
+            elif not arg.get('dirty_flag'):
+                w.assume(z3.Or(ahead, z3.And(self.has_dirty == 1, self.dirty)))
             if arg.get('known_dirty', True):
                 # git and stdin sources always report dirty as Some(..); `None` only arises with --source none
                 pass
@@ -129,6 +134,8 @@ def flow_args(I, w, arg):
 def run_flow(ctx, arg, case):
     """-> (result Zerv, FlowArgs after validate) ; raises PathAbort after recording a violation on errors"""
     I, w = ctx.I, ctx.w
+    import models_chrono as MC
+    MC.NOW_MAX[0] = MC.END_2199 - 1 if arg.get('now_full') else 2**32 - 1
     fa = flow_args(I, w, arg)
     common = fget(fa, FLOW_FIELDS, 'overrides').fields[0]
     bumps0 = I.call('<BumpsConfig as Default>::default', [])
@@ -187,7 +194,12 @@ def path_order(ctx, arg):
     if r2.variant != 0:
         # the known u32 limitation of hash length 10 is C04's finding; everything else is unexpected
         ctx.tag('flow_error')
-        ctx.violation(clause='flow_error', case=case.concrete(w.get_model()), arg=arg, detail='second pass failed', vkey='flow_error|pass2|len%s' % arg.get('hash_len', 5))
+        from models_fmt import render_display
+        try:
+            msg = ''.join(chr(c) if isinstance(c, int) else '?' for c in render_display(I, r2.fields[0]))
+        except Exception as e:
+            msg = repr(r2.fields[0])[:200]
+        ctx.violation(clause='flow_error', case=case.concrete(w.get_model()), arg=arg, detail='second pass failed: ' + msg[:300], vkey='flow_error|pass2|len%s' % arg.get('hash_len', 5))
         return
     zerv = r2.fields[0]
     ctx.tag('flow_ok')
@@ -201,6 +213,11 @@ def path_order(ctx, arg):
             exp = int_to_chars(I, case.x) + [46] + int_to_chars(I, case.y) + [46] + int_to_chars(I, case.z)
             if case.pre is not None:
                 return      # pre-release tags: see path_pre_tag
+            if (arg.get('schema') or '').endswith('context') and arg.get('schema') != 'standard-no-context':
+                # an explicit *-context schema appends build metadata by request: the version proper must be X.Y.Z
+                cut = [i for i, c in enumerate(txt) if isinstance(c, int) and c == 43]
+                if cut:
+                    txt = txt[:cut[0]]
             m = c06.text_diff(w, txt, exp)
             if m is not None:
                 ctx.violation(clause='clean_tag_changed', case=case.concrete(m), arg=arg, fmt=fmt, out=mstr(m, txt),
@@ -251,7 +268,7 @@ def path_monotone(ctx, arg):
     w.assume(z3.And(case1.has_dist == 1, case1.dist >= 1, case1.has_dirty == 1, z3.Not(case1.dirty)))
     try:
         r1, _, _ = run_flow(ctx, arg, case1)
-        d2 = w.fresh_int('dist2', 0, arg.get('dist_max', 99))
+        d2 = w.fresh_int('dist2', 0, arg.get('dist_max', 9))
         w.assume(d2 > case1.dist)
         old = case1.dist
         case1.dist = d2
@@ -302,7 +319,8 @@ def path_monotone(ctx, arg):
             same = [a.fields[0] == b.fields[0]]
             m = w.find(z3.Or(na.variant != 1, nb.variant != 1, na.fields[0] >= nb.fields[0]) if na.fields and nb.fields else z3.BoolVal(True))
         if m is not None:
-            ctx.violation(clause='not_monotone', case=case1.concrete(m), arg=arg, fmt=fmt, detail='more commits did not give a strictly greater version', vkey='monotone|' + fmt)
+            ctx.violation(clause='not_monotone', case=case1.concrete(m), arg=arg, fmt=fmt, distance2=m.eval(d2, model_completion=True).as_long(),
+                          detail='more commits did not give a strictly greater version', vkey='monotone|' + fmt)
         else:
             ctx.tag('monotone')
 
@@ -372,7 +390,7 @@ def path_law(ctx, arg):
     conds.append(opt_mismatch(g('post'), exp_post_p, exp_post_v))
     # dev: a timestamp iff dirty (commit mode) or dirty/ahead (tag mode)
     dv = g('dev')
-    want_dev = eff_dirty if mode == 'tag' else dirty_known
+    want_dev = z3.Or(dirty_known, ahead) if mode == 'tag' else dirty_known
     if dv.fields:
         conds.append(z3.Xor(dv.variant == 1 if not isinstance(dv.variant, int) else z3.BoolVal(dv.variant == 1), want_dev))
     else:
@@ -389,19 +407,28 @@ def path_law(ctx, arg):
 def flow_cases(tier):
     q = tier == 'quick'
     out = []
-    branches = [None, list('main'), list('dv'), list('rl/') + ['PATH'], list('rl/2'), list('f/') + ['PATH', 'PATH']]
+    branches = [None, list('main'), list('dv'), list('rl/') + ['PATH'], list('rl/2')] + ([] if q else [list('f/') + ['PATH', 'PATH']])
     for st in ('clean_at_tag', 'moved'):
         for b in branches:
             for mode in (None, 'tag', 'commit'):
+                if q and b is not None and 'PATH' in b and mode is not None:
+                    continue        # quick: free branch characters only with the rule-derived post mode
+                if q and mode is not None and b != list('main'):
+                    continue
+                if q and st == 'clean_at_tag' and (mode is not None or b not in (None, list('main'), list('rl/2'))):
+                    continue
                 out.append(dict(name='%s' % st, state=st, rules='short', branch=b, mode=mode, tag_post=(b is None)))
     for schema in ('standard', 'standard-base-prerelease-post-dev-context', 'standard-no-context', 'standard-context'):
         out.append(dict(name='schema', state='moved', rules='short', branch=list('rl/7'), schema=schema))
-        out.append(dict(name='schema', state='clean_at_tag', rules='short', branch=list('main'), schema=schema))
+        if not q or schema == 'standard':
+            out.append(dict(name='schema', state='clean_at_tag', rules='short', branch=list('main'), schema=schema))
     out.append(dict(name='default_rules', state='moved', rules='default', branch=list('release/') + ['DIGIT']))
     out.append(dict(name='default_rules', state='moved', rules='default', branch=list('develop')))
     out.append(dict(name='flags', state='moved', rules='short', branch=list('main'), label='rc', num=4, mode='tag'))
     out.append(dict(name='flags', state='moved', rules='short', branch=list('main'), dirty_flag=True))
     out.append(dict(name='flags', state='moved', rules='short', branch=list('rl/1'), no_dirty_flag=True))
-    for hl in ((1, 5, 9) if q else range(1, 10)):
+    if not q:
+        out = [dict(a, sym_xy=True) for a in out]
+    for hl in ((1, 9) if q else range(1, 10)):
         out.append(dict(name='hashlen', state='moved', rules='short', branch=list('main'), hash_len=hl))
     return out
